@@ -75,4 +75,53 @@ theorem copyWithin_right (A M G C : Bytes) (lo hi dst : Nat) (hlo : lo = A.lengt
       drop_append_add M _ _ G.length (by omega), drop_append_len G C _ rfl]
   rw [e2, e3]
 
+
+/-- grow: move `Q` right over the gap `G`, then zero the opened gap -/
+theorem grow_seg (A v Q G T : Bytes) (lo hi dst : Nat) (hlo : lo = A.length + v.length)
+    (hhi : hi = lo + Q.length) (hdst : dst = lo + G.length) :
+    ∃ d2, copyWithin (A ++ (v ++ (Q ++ (G ++ T)))) lo hi dst = .ok d2 ∧
+      fillZ d2 lo dst = .ok (A ++ (v ++ (zeros G.length ++ (Q ++ T)))) := by
+  have hAv : (A ++ v).length = lo := by simp [hlo]
+  have hd : A ++ (v ++ (Q ++ (G ++ T))) = (A ++ v) ++ (Q ++ (G ++ T)) := by simp
+  let X := (Q ++ (G ++ T)).take G.length
+  have hX : X.length = G.length := by simp [X, List.length_take]; omega
+  refine ⟨(A ++ v) ++ (X ++ (Q ++ T)), ?_, ?_⟩
+  · unfold copyWithin
+    rw [if_pos (by simp [hlo, hhi, hdst]; omega)]
+    rw [hd]
+    have e1 : ((A ++ v) ++ (Q ++ (G ++ T))).take dst = (A ++ v) ++ X :=
+      take_append_add _ _ _ G.length (by omega)
+    have e2 : (((A ++ v) ++ (Q ++ (G ++ T))).drop lo).take (hi - lo) = Q := by
+      rw [drop_append_len _ _ _ hAv.symm, take_append_len _ _ _ (by omega)]
+    have e3 : ((A ++ v) ++ (Q ++ (G ++ T))).drop (dst + (hi - lo)) = T := by
+      rw [drop_append_add _ _ _ (Q.length + G.length) (by omega),
+        drop_append_add _ _ _ G.length (by omega), drop_append_len _ _ _ rfl]
+    rw [e1, e2, e3]; simp
+  · have := fillZ_seg (A ++ v) X (Q ++ T) lo dst hAv.symm (by omega)
+    rw [hX] at this
+    simp only [List.append_assoc] at this ⊢
+    exact this
+
+/-- shrink: move `Q` left over the released bytes `v2`, then zero the vacated end -/
+theorem shrink_seg (A v1 v2 Q T : Bytes) (lo hi dst : Nat) (hdst : dst = A.length + v1.length)
+    (hlo : lo = dst + v2.length) (hhi : hi = lo + Q.length) :
+    ∃ d2, copyWithin (A ++ (v1 ++ (v2 ++ (Q ++ T)))) lo hi dst = .ok d2 ∧
+      fillZ d2 (hi - v2.length) hi = .ok (A ++ (v1 ++ (Q ++ (zeros v2.length ++ T)))) := by
+  have hAv : (A ++ v1).length = dst := by simp [hdst]
+  have hd : A ++ (v1 ++ (v2 ++ (Q ++ T))) = (A ++ v1) ++ (v2 ++ (Q ++ T)) := by simp
+  let Y := (v2 ++ Q).drop Q.length
+  have hY : Y.length = v2.length := by simp [Y, List.length_drop]
+  refine ⟨((A ++ v1) ++ Q) ++ (Y ++ T), ?_, ?_⟩
+  · rw [hd]
+    have := copyWithin_left (A ++ v1) v2 Q T lo hi dst (by omega) hhi hAv.symm
+    rw [this]
+    congr 1
+    have : (v2 ++ (Q ++ T)).drop Q.length = Y ++ T := by
+      rw [← List.append_assoc, List.drop_append_of_le_length (by simp)]
+    rw [this]; simp
+  · have := fillZ_seg ((A ++ v1) ++ Q) Y T (hi - v2.length) hi (by simp; omega) (by simp [hY]; omega)
+    rw [hY] at this
+    simp only [List.append_assoc] at this ⊢
+    exact this
+
 end Bytes
